@@ -1,8 +1,16 @@
 /-
   C04 — a KSK signs only inside its validity window and only if it is the configured key.
+
+  Every theorem is for EVERY token `tok` (any contents, any fault plan) and every state `s` unless
+  it names the healthy token `storeToken`.  Helper lemmas and the views `acceptKey`,
+  `refetchPublic`, `WindowViolated` are in KskmProofs/Lemmas/Hsm.lean and HsmLoad.lean, each tied to
+  the model by a proved equation (`loadPkcs11Key_inside`, `acceptKeyM_eq`).
 -/
 import Kskm.Signer
 import KskmProofs.Lemmas.TokM
+import KskmProofs.Lemmas.HsmLoad
+import KskmProofs.C14
+import KskmProofs.C15
 namespace Kskm.C04
 
 /-- **Before the window: refused without touching the token.** For every token and state, a key
@@ -19,5 +27,405 @@ theorem expired_refused (mods : List P11Module) (ksk : KskKey) (pol : KskPolicy)
     (h : u < b.expiration) (h0 : ¬ ksk.validFrom > b.inception) :
     loadPkcs11Key mods ksk pol b isPublic tok s = (.error (.violation .keyUsage), s) := by
   simp [loadPkcs11Key, h0, hu, h, bind, TokM.fail]
+
+/-! ## The window -/
+
+/-- the documented window: inception not before valid-from, expiration not after valid-until (when set) -/
+def InWindow (ksk : KskKey) (b : Bundle) : Prop :=
+  ksk.validFrom ≤ b.inception ∧ ∀ u, ksk.validUntil = some u → b.expiration ≤ u
+
+theorem inWindow_iff (ksk : KskKey) (b : Bundle) : InWindow ksk b ↔ ¬ WindowViolated ksk b := by
+  unfold InWindow WindowViolated
+  constructor
+  · rintro ⟨h1, h2⟩ (h | ⟨u, hu, h⟩)
+    · omega
+    · have := h2 u hu; omega
+  · intro h
+    refine ⟨?_, ?_⟩
+    · apply Int.not_lt.mp; exact fun x => h (Or.inl x)
+    · intro u hu; apply Int.not_lt.mp; exact fun x => h (Or.inr ⟨u, hu, x⟩)
+
+/-- **A key is loaded only inside its window** (boundaries included). -/
+theorem loaded_implies_window (mods : List P11Module) (ksk : KskKey) (pol : KskPolicy) (b : Bundle)
+    (isPublic : Bool) (tok : Token) (s s' : TokState) (ck : CompositeKey)
+    (h : loadPkcs11Key mods ksk pol b isPublic tok s = (.ok (some ck), s')) :
+    ksk.validFrom ≤ b.inception ∧ ∀ u, ksk.validUntil = some u → b.expiration ≤ u :=
+  (inWindow_iff ksk b).mpr (loadPkcs11Key_some mods ksk pol b isPublic tok s s' ck h).1
+
+/-- **Outside the window: the key-usage violation, and the token is not touched** (`s' = s`):
+    both ends in one statement. -/
+theorem outside_window_refused (mods : List P11Module) (ksk : KskKey) (pol : KskPolicy) (b : Bundle)
+    (isPublic : Bool) (tok : Token) (s : TokState) (h : ¬ InWindow ksk b) :
+    loadPkcs11Key mods ksk pol b isPublic tok s = (.error (.violation .keyUsage), s) := by
+  have : WindowViolated ksk b := Classical.byContradiction fun hn => h ((inWindow_iff ksk b).mpr hn)
+  exact loadPkcs11Key_violated mods ksk pol b isPublic tok s this
+
+/-- **Inside the window the window plays no further role**: the outcome (and the log) is that for
+    the same key with the widest window. -/
+theorem window_only_gates (mods : List P11Module) (ksk : KskKey) (pol : KskPolicy) (b : Bundle)
+    (isPublic : Bool) (tok : Token) (s : TokState) (h : InWindow ksk b) :
+    loadPkcs11Key mods ksk pol b isPublic tok s =
+      loadPkcs11Key mods { ksk with validFrom := b.inception, validUntil := none } pol b isPublic tok s := by
+  rw [loadPkcs11Key_inside _ _ _ _ _ _ _ ((inWindow_iff ksk b).mp h),
+    loadPkcs11Key_inside _ _ _ _ _ _ _ (by
+      rintro (h | ⟨u, hu, _⟩)
+      · exact absurd h (Int.lt_irrefl _)
+      · simp at hu)]
+  rfl
+
+/-- **Boundary: `valid_from = inception` is accepted** (not a violation; the token decides). -/
+theorem boundary_valid_from_accepted (mods : List P11Module) (ksk : KskKey) (pol : KskPolicy)
+    (b : Bundle) (isPublic : Bool) (tok : Token) (s : TokState) (h : ksk.validFrom = b.inception)
+    (hu : ∀ u, ksk.validUntil = some u → b.expiration ≤ u) :
+    InWindow ksk b ∧ loadPkcs11Key mods ksk pol b isPublic tok s =
+      loadPkcs11Key mods { ksk with validFrom := b.inception, validUntil := none } pol b isPublic tok s :=
+  have hw : InWindow ksk b := ⟨by omega, hu⟩
+  ⟨hw, window_only_gates mods ksk pol b isPublic tok s hw⟩
+
+/-- **Boundary: `valid_until = expiration` is accepted.** -/
+theorem boundary_valid_until_accepted (mods : List P11Module) (ksk : KskKey) (pol : KskPolicy)
+    (b : Bundle) (isPublic : Bool) (tok : Token) (s : TokState) (h0 : ksk.validFrom ≤ b.inception)
+    (hu : ksk.validUntil = some b.expiration) :
+    InWindow ksk b ∧ loadPkcs11Key mods ksk pol b isPublic tok s =
+      loadPkcs11Key mods { ksk with validFrom := b.inception, validUntil := none } pol b isPublic tok s :=
+  have hw : InWindow ksk b := ⟨h0, fun u hu' => by rw [hu] at hu'; simp at hu'; omega⟩
+  ⟨hw, window_only_gates mods ksk pol b isPublic tok s hw⟩
+
+/-- one second outside either end is a violation (the other side of the two boundaries) -/
+theorem boundary_strict (mods : List P11Module) (ksk : KskKey) (pol : KskPolicy) (b : Bundle)
+    (isPublic : Bool) (tok : Token) (s : TokState)
+    (h : ksk.validFrom = b.inception + 1 ∨ ksk.validUntil = some (b.expiration - 1)) :
+    loadPkcs11Key mods ksk pol b isPublic tok s = (.error (.violation .keyUsage), s) := by
+  apply outside_window_refused
+  rintro ⟨h1, h2⟩
+  rcases h with h | h
+  · omega
+  · have := h2 _ h; omega
+
+/-! ## The key loaded is the configured key -/
+
+/-- what `load_pkcs11_key` has established about a key it returns -/
+structure LoadedAs (mods : List P11Module) (ksk : KskKey) (pol : KskPolicy) (isPublic : Bool)
+    (ck : CompositeKey) : Prop where
+  flags : ck.dns.flags = 257
+  keyIdentifier : ck.dns.keyIdentifier = ksk.label
+  algorithm : ck.dns.algorithm = ksk.algorithm
+  ttl : ck.dns.ttl = pol.ttl
+  protocol : ck.dns.protocol = 3
+  /-- the DNSKEY text is the text derived from the token object -/
+  publicKey : ck.p11.publicKey = some ck.dns.publicKey
+  nonEmpty : ck.dns.publicKey ≠ ""
+  /-- only asymmetric key types -/
+  asymmetric : ck.p11.keyType = .rsa ∨ ck.p11.keyType = .ec
+  /-- RSA: family, modulus size and exponent are the configured ones -/
+  rsa : ck.p11.keyType = .rsa → isAlgorithmRsa ksk.algorithm = true ∧
+    ∃ pub, rsaDecode ck.dns.publicKey ksk.algorithm = .ok pub ∧
+      some (pub.bits : Int) = ksk.rsaSize ∧ some (pub.exponent : Int) = ksk.rsaExponent
+  /-- EC: the configured algorithm is an elliptic-curve one -/
+  ec : ck.p11.keyType = .ec →
+    (isAlgorithmEcdsa ksk.algorithm = true ∨ isAlgorithmEddsa ksk.algorithm = true)
+  /-- the key tag is the RFC 4034 App. B tag of the key's RDATA -/
+  keyTag : ∃ r, keyToRdata ck.dns = .ok r ∧ ck.dns.keyTag = (C14.rfc4034KeyTag r : Nat)
+  /-- the token object: configured label, requested class, in a session slot of a configured module -/
+  label : ck.p11.label = ksk.label
+  keyClass : ck.p11.keyClass = classOf isPublic
+  location : ∃ m ∈ mods, ck.p11.module = m.path ∧ ck.p11.slot ∈ m.sessions
+
+theorem loaded_as (mods : List P11Module) (ksk : KskKey) (pol : KskPolicy) (b : Bundle)
+    (isPublic : Bool) (tok : Token) (s s' : TokState) (ck : CompositeKey)
+    (h : loadPkcs11Key mods ksk pol b isPublic tok s = (.ok (some ck), s')) :
+    LoadedAs mods ksk pol isPublic ck := by
+  obtain ⟨_, f0, s1, f, hg, hr, ha⟩ := loadPkcs11Key_some mods ksk pol b isPublic tok s s' ck h
+  obtain ⟨pk, hpk, hne, hp11, hdns, hfam⟩ := (acceptKey_some_iff ksk pol f ck).mp ha
+  obtain ⟨h1, h2, h3, h4, h5, h6, r, hr1, hr2⟩ := publicKeyToDnssecKey_ok _ _ _ _ _ _ hdns
+  -- the record checked is the record found, up to the public key text
+  have hsame : f.label = f0.label ∧ f.keyClass = f0.keyClass ∧ f.module = f0.module ∧ f.slot = f0.slot := by
+    rcases refetchPublic_ok mods ksk isPublic f0 f tok s1 s' hr with ⟨rfl, _⟩ | ⟨_, _, fp, _, rfl⟩
+    · exact ⟨rfl, rfl, rfl, rfl⟩
+    · exact ⟨rfl, rfl, rfl, rfl⟩
+  obtain ⟨pre, m, post, s₁, hmods, _, hfound, hmod, hslot, _⟩ :=
+    C15.getP11Key_first_module ksk.label isPublic ksk.hashUsingHsm tok mods s s1 f0 hg
+  obtain ⟨_, _, hlab, hcls, _⟩ := C15.findInSlots_some _ _ _ _ _ _ _ _ _ hfound
+  subst hp11
+  exact {
+    flags := h5, keyIdentifier := h2, algorithm := h3, ttl := h4, protocol := h6
+    publicKey := by rw [hpk, h1]
+    nonEmpty := by rw [h1]; simpa using hne
+    asymmetric := by rcases hfam with ⟨h, _⟩ | ⟨h, _⟩ <;> simp [h]
+    rsa := by
+      intro hk
+      rcases hfam with ⟨_, h⟩ | ⟨h, _⟩
+      · rw [h1]; exact h
+      · rw [hk] at h; cases h
+    ec := by
+      intro hk
+      rcases hfam with ⟨h, _⟩ | ⟨_, h⟩
+      · rw [hk] at h; cases h
+      · exact h
+    keyTag := ⟨r, hr1, by rw [hr2, C14.keyTag_eq_rfc4034]⟩
+    label := by rw [hsame.1, hlab]
+    keyClass := by rw [hsame.2.1, hcls]
+    location := ⟨m, by rw [hmods]; simp, by rw [hsame.2.2.1, hmod], by rw [hsame.2.2.2]; exact hslot⟩ }
+
+/-- **A key is loaded only if it is the configured key** (the conjunction spelled out): SEP+ZONE
+    flags, configured label / algorithm / policy TTL, the public key text is the one read from the
+    token, an RSA key has the configured family, modulus size and exponent, an EC key an EC
+    algorithm, and the tag is the RFC 4034 tag of the RDATA. -/
+theorem loaded_implies_params (mods : List P11Module) (ksk : KskKey) (pol : KskPolicy) (b : Bundle)
+    (isPublic : Bool) (tok : Token) (s s' : TokState) (ck : CompositeKey)
+    (h : loadPkcs11Key mods ksk pol b isPublic tok s = (.ok (some ck), s')) :
+    ck.dns.flags = 257 ∧ ck.dns.keyIdentifier = ksk.label ∧ ck.dns.algorithm = ksk.algorithm ∧
+    ck.dns.ttl = pol.ttl ∧ ck.p11.publicKey = some ck.dns.publicKey ∧
+    (ck.p11.keyType = .rsa → isAlgorithmRsa ksk.algorithm = true ∧
+      ∃ pub, rsaDecode ck.dns.publicKey ksk.algorithm = .ok pub ∧
+        some (pub.bits : Int) = ksk.rsaSize ∧ some (pub.exponent : Int) = ksk.rsaExponent) ∧
+    (ck.p11.keyType = .ec →
+      (isAlgorithmEcdsa ksk.algorithm = true ∨ isAlgorithmEddsa ksk.algorithm = true)) ∧
+    (∃ r, keyToRdata ck.dns = .ok r ∧ ck.dns.keyTag = (C14.rfc4034KeyTag r : Nat)) := by
+  have l := loaded_as mods ksk pol b isPublic tok s s' ck h
+  exact ⟨l.flags, l.keyIdentifier, l.algorithm, l.ttl, l.publicKey, l.rsa, l.ec, l.keyTag⟩
+
+/-! ## `_fetch_keys`: window, parameters, key tag and DS digest -/
+
+/-- the identity check of `validate_dnskey_matches_ksk`: configured key tag equal, configured DS
+    SHA-256 digest equal — compared case-insensitively — to SHA-256 over owner ‖ RDATA -/
+def IdentityOk (ext : Externals) (ksk : KskKey) (ck : CompositeKey) : Prop :=
+  (∀ t, ksk.keyTag = some t → ck.dns.keyTag = t) ∧
+  (∀ ds, ksk.dsSha256 = some ds → ds ≠ "" →
+    ∃ inp digest, dsInput ck.dns = .ok inp ∧ ext.hash .sha256 inp = some digest ∧
+      ds.toUpper = upperHex digest)
+
+/-- **Every key `_fetch_keys` returns is the configured key inside its window**: one key per name,
+    in order; the name is configured; window, parameter and identity facts hold. -/
+theorem fetched_implies_identity (ext : Externals) (mods : List P11Module) (cfg : SignerConfig)
+    (b : Bundle) (isPublic : Bool) (tok : Token) :
+    ∀ (names : List String) (s s' : TokState) (cks : List CompositeKey),
+      fetchKeys ext mods cfg b isPublic names tok s = (.ok cks, s') →
+      cks.length = names.length ∧
+      ∀ p ∈ names.zip cks, ∃ ksk, cfg.kskKeys.lookup p.1 = some ksk ∧ InWindow ksk b ∧
+        LoadedAs mods ksk cfg.kskPolicy isPublic p.2 ∧ IdentityOk ext ksk p.2 := by
+  intro names
+  induction names with
+  | nil =>
+    intro s s' cks h
+    simp only [fetchKeys, TokM.pure_run, Prod.mk.injEq, Except.ok.injEq] at h
+    rw [← h.1]; simp
+  | cons name rest ih =>
+    intro s s' cks h
+    rw [fetchKeys_cons_run] at h
+    cases hl : cfg.kskKeys.lookup name with
+    | none => rw [hl] at h; simp at h
+    | some ksk =>
+      rw [hl] at h
+      simp only at h
+      cases hload : loadPkcs11Key mods ksk cfg.kskPolicy b isPublic tok s with
+      | mk r s1 =>
+        rw [hload] at h
+        cases r with
+        | error e => simp at h
+        | ok o =>
+          cases o with
+          | none => simp at h
+          | some ck =>
+            simp only at h
+            cases hv : validateDnskeyMatchesKsk ext ksk ck.dns with
+            | error e => rw [hv] at h; simp at h
+            | ok u =>
+              rw [hv] at h
+              simp only at h
+              cases hrest : fetchKeys ext mods cfg b isPublic rest tok s1 with
+              | mk r2 s2 =>
+                rw [hrest] at h
+                cases r2 with
+                | error e => simp at h
+                | ok more =>
+                  simp only [Prod.mk.injEq, Except.ok.injEq] at h
+                  obtain ⟨rfl, rfl⟩ := h
+                  obtain ⟨hlen, hall⟩ := ih s1 s2 more hrest
+                  refine ⟨by simp [hlen], ?_⟩
+                  intro p hp
+                  simp only [List.zip_cons_cons, List.mem_cons] at hp
+                  rcases hp with rfl | hp
+                  · have hw := loaded_implies_window mods ksk cfg.kskPolicy b isPublic tok s s1 ck hload
+                    obtain ⟨ht, hds⟩ := validateDnskeyMatchesKsk_ok ext ksk ck.dns hv
+                    exact ⟨ksk, hl, hw, loaded_as mods ksk cfg.kskPolicy b isPublic tok s s1 ck hload,
+                      ht, fun ds hd hne => hds ds hd (by simpa using hne)⟩
+                  · exact hall p hp
+
+/-! ## A label that cannot be resolved stops the run -/
+
+/-- **A name that is not configured is a key error**, before the token is touched. -/
+theorem unknown_name_is_key_error (ext : Externals) (mods : List P11Module) (cfg : SignerConfig)
+    (b : Bundle) (isPublic : Bool) (name : String) (rest : List String) (tok : Token) (s : TokState)
+    (h : cfg.kskKeys.lookup name = none) :
+    fetchKeys ext mods cfg b isPublic (name :: rest) tok s = (.error (.error .key), s) := by
+  rw [fetchKeys_cons_run, h]
+
+/-- **"Not loaded" is a configuration error**: when `load_pkcs11_key` answers `None` for a name,
+    `_fetch_keys` fails; no key is substituted, later names are not even looked up. -/
+theorem not_found_is_configuration_error (ext : Externals) (mods : List P11Module) (cfg : SignerConfig)
+    (b : Bundle) (isPublic : Bool) (name : String) (rest : List String) (ksk : KskKey) (tok : Token)
+    (s s1 : TokState) (hcfg : cfg.kskKeys.lookup name = some ksk)
+    (h : loadPkcs11Key mods ksk cfg.kskPolicy b isPublic tok s = (.ok none, s1)) :
+    fetchKeys ext mods cfg b isPublic (name :: rest) tok s = (.error (.error .configuration), s1) := by
+  rw [fetchKeys_cons_run, hcfg]
+  simp only [h]
+
+/-- the label is on no token (every module answers "not found") ⇒ `None` ⇒ configuration error -/
+theorem label_on_no_token_is_configuration_error (ext : Externals) (mods : List P11Module)
+    (cfg : SignerConfig) (b : Bundle) (isPublic : Bool) (name : String) (rest : List String)
+    (ksk : KskKey) (tok : Token) (s s1 : TokState) (hcfg : cfg.kskKeys.lookup name = some ksk)
+    (hw : InWindow ksk b)
+    (h : getP11Key ksk.label isPublic ksk.hashUsingHsm mods tok s = (.ok none, s1)) :
+    loadPkcs11Key mods ksk cfg.kskPolicy b isPublic tok s = (.ok none, s1) ∧
+    fetchKeys ext mods cfg b isPublic (name :: rest) tok s = (.error (.error .configuration), s1) := by
+  have hl : loadPkcs11Key mods ksk cfg.kskPolicy b isPublic tok s = (.ok none, s1) := by
+    rw [loadPkcs11Key_inside _ _ _ _ _ _ _ ((inWindow_iff ksk b).mp hw)]
+    unfold loadAfterWindow
+    rw [h]
+  exact ⟨hl, not_found_is_configuration_error ext mods cfg b isPublic name rest ksk tok s s1 hcfg hl⟩
+
+/-- any failure of the lookup (token error, duplicate label, …) propagates unchanged through
+    `load_pkcs11_key` and `_fetch_keys`: the run stops there -/
+theorem lookup_failure_stops (ext : Externals) (mods : List P11Module) (cfg : SignerConfig)
+    (b : Bundle) (isPublic : Bool) (name : String) (rest : List String) (ksk : KskKey) (tok : Token)
+    (s s1 : TokState) (e : Fail) (hcfg : cfg.kskKeys.lookup name = some ksk) (hw : InWindow ksk b)
+    (h : getP11Key ksk.label isPublic ksk.hashUsingHsm mods tok s = (.error e, s1)) :
+    loadPkcs11Key mods ksk cfg.kskPolicy b isPublic tok s = (.error e, s1) ∧
+    fetchKeys ext mods cfg b isPublic (name :: rest) tok s = (.error e, s1) := by
+  have hl : loadPkcs11Key mods ksk cfg.kskPolicy b isPublic tok s = (.error e, s1) := by
+    rw [loadPkcs11Key_inside _ _ _ _ _ _ _ ((inWindow_iff ksk b).mp hw)]
+    unfold loadAfterWindow
+    rw [h]
+  refine ⟨hl, ?_⟩
+  rw [fetchKeys_cons_run, hcfg]
+  simp only [hl]
+
+/-- **Two objects under the configured label in one slot stop the run** (healthy token): the first
+    module that has the label has, in its first non-empty slot, two or more matching objects ⇒
+    `get_p11_key`, `load_pkcs11_key` and `_fetch_keys` all fail with the runtime error — even if a
+    later slot or module holds exactly one such object.  No key is guessed. -/
+theorem duplicate_label_is_error (ext : Externals) (cfg : SignerConfig) (b : Bundle) (isPublic : Bool)
+    (name : String) (rest : List String) (ksk : KskKey) (st : Store) (ok : String → Nat → Bool)
+    (pre post : List P11Module) (m : P11Module) (spre spost : List Nat) (s₀ : Nat) (s : TokState)
+    (hcfg : cfg.kskKeys.lookup name = some ksk) (hw : InWindow ksk b)
+    (hpre : ∀ m' ∈ pre, ∀ sl ∈ m'.sessions, matching st m' ksk.label (classOf isPublic) sl = [])
+    (hm : m.sessions = spre ++ s₀ :: spost)
+    (hspre : ∀ sl ∈ spre, matching st m ksk.label (classOf isPublic) sl = [])
+    (htwo : 2 ≤ (matching st m ksk.label (classOf isPublic) s₀).length) :
+    ∃ s1, loadPkcs11Key (pre ++ m :: post) ksk cfg.kskPolicy b isPublic (storeToken st ok) s =
+        (.error (.error .runtime), s1) ∧
+      fetchKeys ext (pre ++ m :: post) cfg b isPublic (name :: rest) (storeToken st ok) s =
+        (.error (.error .runtime), s1) := by
+  obtain ⟨s1, h⟩ := C15.getP11Key_duplicate st ok ksk.label isPublic ksk.hashUsingHsm pre post m
+    spre spost s₀ hpre hm hspre htwo s
+  exact ⟨s1, lookup_failure_stops ext _ cfg b isPublic name rest ksk _ s s1 _ hcfg hw h⟩
+
+/-- **A key whose public part cannot be read is not used**: the private object was found without a
+    public key text, and the second lookup (public class) found nothing, or an object whose public
+    key text is absent too ⇒ `None` ⇒ configuration error upstream. -/
+theorem unreadable_public_part_stops (ext : Externals) (mods : List P11Module) (cfg : SignerConfig)
+    (b : Bundle) (name : String) (rest : List String) (ksk : KskKey) (tok : Token)
+    (s s1 s2 : TokState) (f0 : P11Key) (r : Option P11Key)
+    (hcfg : cfg.kskKeys.lookup name = some ksk) (hw : InWindow ksk b)
+    (h1 : getP11Key ksk.label false ksk.hashUsingHsm mods tok s = (.ok (some f0), s1))
+    (hnone : f0.publicKey = none)
+    (h2 : getP11Key ksk.label true ksk.hashUsingHsm mods tok s1 = (.ok r, s2))
+    (hr : r = none ∨ ∃ fp, r = some fp ∧ fp.publicKey = none) :
+    loadPkcs11Key mods ksk cfg.kskPolicy b false tok s = (.ok none, s2) ∧
+    fetchKeys ext mods cfg b false (name :: rest) tok s = (.error (.error .configuration), s2) := by
+  have hl : loadPkcs11Key mods ksk cfg.kskPolicy b false tok s = (.ok none, s2) := by
+    rw [loadPkcs11Key_inside _ _ _ _ _ _ _ ((inWindow_iff ksk b).mp hw)]
+    unfold loadAfterWindow
+    rw [h1]
+    simp only
+    have hre : ∃ f, refetchPublic mods ksk false f0 tok s1 = (.ok f, s2) ∧ f.publicKey = none := by
+      unfold refetchPublic
+      simp only [hnone, Option.isNone_none, Bool.not_false, Bool.and_self, ↓reduceIte]
+      rw [bind_run, h2]
+      rcases hr with rfl | ⟨fp, rfl, hfp⟩
+      · exact ⟨f0, rfl, hnone⟩
+      · exact ⟨{ f0 with publicKey := fp.publicKey }, rfl, hfp⟩
+    obtain ⟨f, hf, hfn⟩ := hre
+    rw [hf]
+    simp only [acceptKey, hfn]
+    rfl
+  exact ⟨hl, not_found_is_configuration_error ext mods cfg b false name rest ksk tok s s2 hcfg hl⟩
+
+/-- an empty public key text counts as unreadable as well (`if not _found.public_key`) -/
+theorem empty_public_part_stops (mods : List P11Module) (ksk : KskKey) (pol : KskPolicy) (b : Bundle)
+    (tok : Token) (s s1 : TokState) (f0 : P11Key) (hw : InWindow ksk b)
+    (h1 : getP11Key ksk.label true ksk.hashUsingHsm mods tok s = (.ok (some f0), s1))
+    (hempty : f0.publicKey = some "") :
+    loadPkcs11Key mods ksk pol b true tok s = (.ok none, s1) := by
+  rw [loadPkcs11Key_inside _ _ _ _ _ _ _ ((inWindow_iff ksk b).mp hw)]
+  unfold loadAfterWindow
+  rw [h1]
+  simp only [refetchPublic, Bool.not_true, Bool.and_false, Bool.false_eq_true, ↓reduceIte,
+    TokM.pure_run, acceptKey, hempty]
+  rfl
+
+/-! ## No private-key operation before a key is accepted -/
+
+/-- **Selecting keys never signs**: every operation `load_pkcs11_key` logs is a `findObjects` or a
+    `getAttr` on a configured module — for every token and whatever the outcome. -/
+theorem no_sign_before_accept (mods : List P11Module) (ksk : KskKey) (pol : KskPolicy) (b : Bundle)
+    (isPublic : Bool) (tok : Token) (s s' : TokState) (r : Res (Option CompositeKey))
+    (h : loadPkcs11Key mods ksk pol b isPublic tok s = (r, s')) :
+    ∃ l, s'.log = l ++ s.log ∧ ∀ e ∈ l, isSignOp e.1 = false ∧ IsReadAmong mods e.1 := by
+  obtain ⟨l, hl, _, hp⟩ := (loadPkcs11Key_emits mods ksk pol b isPublic).run h
+  exact ⟨l, hl, fun e he => ⟨(hp e he).not_sign, hp e he⟩⟩
+
+/-- the same for `_fetch_keys` over any list of names -/
+theorem no_sign_in_fetch (ext : Externals) (mods : List P11Module) (cfg : SignerConfig) (b : Bundle)
+    (isPublic : Bool) (names : List String) (tok : Token) (s s' : TokState)
+    (r : Res (List CompositeKey)) (h : fetchKeys ext mods cfg b isPublic names tok s = (r, s')) :
+    ∃ l, s'.log = l ++ s.log ∧ ∀ e ∈ l, isSignOp e.1 = false ∧ IsReadAmong mods e.1 := by
+  obtain ⟨l, hl, _, hp⟩ := (fetchKeys_emits ext mods cfg b isPublic names).run h
+  exact ⟨l, hl, fun e he => ⟨(hp e he).not_sign, hp e he⟩⟩
+
+/-! ## Non-vacuity: a concrete healthy token (one 16-bit RSA public object "K" in slot 1 of module
+    "mod", `C15.exTok`), a configuration that names it, a bundle on both boundaries of the window -/
+
+def exKsk : KskKey :=
+  { label := "K", algorithm := 8, validFrom := 1000, validUntil := some 5000, rsaSize := some 16,
+    rsaExponent := some 65537, keyTag := some 34572 }
+def exBundle : Bundle := { id := "b1", inception := 1000, expiration := 5000, keys := [], signatures := [] }
+def exCfg : SignerConfig := { kskKeys := [("ksk1", exKsk)], actions := [] }
+def exExt : Externals := { hash := fun _ _ => none, verify := fun _ _ _ _ => .unknown }
+
+-- the hypothesis of `loaded_implies_window` / `loaded_implies_params` / `boundary_*` is met:
+-- valid_from = inception and valid_until = expiration, and the key is loaded
+example : exKsk.validFrom = exBundle.inception ∧ exKsk.validUntil = some exBundle.expiration := by decide
+example : (loadPkcs11Key [C15.exMod] exKsk {} exBundle true C15.exTok {}).1 =
+    .ok (some { p11 := { label := "K", keyType := .rsa, keyClass := ckoPublic,
+                         publicKey := some "AwEAAYAB", module := "mod", slot := 1, pubHandle := some 7 },
+                dns := { keyIdentifier := "K", keyTag := 34572, ttl := 172800, flags := 257,
+                         protocol := 3, algorithm := 8, publicKey := "AwEAAYAB" } }) := by
+  decide +kernel
+-- `fetched_implies_identity`: the configured tag matches, one key per name
+example : ((fetchKeys exExt [C15.exMod] exCfg exBundle true ["ksk1"] C15.exTok {}).1.map List.length) =
+    .ok 1 := by decide +kernel
+-- a wrong configured tag / size / exponent stops the run; so does a name that is not configured
+example : (fetchKeys exExt [C15.exMod] { exCfg with kskKeys := [("ksk1", { exKsk with keyTag := some 1 })] }
+    exBundle true ["ksk1"] C15.exTok {}).1 = .error (.error .runtime) := by decide +kernel
+example : (loadPkcs11Key [C15.exMod] { exKsk with rsaSize := some 2048 } {} exBundle true C15.exTok {}).1 =
+    .error (.error .value) := by decide +kernel
+example : (loadPkcs11Key [C15.exMod] { exKsk with rsaExponent := some 3 } {} exBundle true C15.exTok {}).1 =
+    .error (.error .value) := by decide +kernel
+example : (loadPkcs11Key [C15.exMod] { exKsk with algorithm := 13 } {} exBundle true C15.exTok {}).1 =
+    .error (.error .value) := by decide +kernel
+example : (fetchKeys exExt [C15.exMod] exCfg exBundle true ["other"] C15.exTok {}).1 =
+    .error (.error .key) := by decide +kernel
+-- no private object under the label: `None`, configuration error (hypothesis of
+-- `not_found_is_configuration_error`)
+example : (loadPkcs11Key [C15.exMod] exKsk {} exBundle false C15.exTok {}).1 = .ok none ∧
+    (fetchKeys exExt [C15.exMod] exCfg exBundle false ["ksk1"] C15.exTok {}).1 =
+      .error (.error .configuration) := by decide +kernel
+-- one microsecond outside either end: the violation
+example : (loadPkcs11Key [C15.exMod] { exKsk with validFrom := 1001 } {} exBundle true C15.exTok {}).1 =
+    .error (.violation .keyUsage) ∧
+    (loadPkcs11Key [C15.exMod] { exKsk with validUntil := some 4999 } {} exBundle true C15.exTok {}).1 =
+    .error (.violation .keyUsage) := by decide +kernel
 
 end Kskm.C04
